@@ -19,6 +19,7 @@ import (
 	"errors"
 	"fmt"
 	"math/big"
+	"sync"
 	"testing"
 
 	"github.com/ethereum/go-ethereum/common"
@@ -453,7 +454,27 @@ func c31Code() map[common.Address][]byte {
 	}
 }
 
+var (
+	c31BaseOnce sync.Once
+	c31BaseDB   state.Database
+	c31BaseRoot common.Hash
+)
+
+// c31NewState opens a fresh StateDB on the committed base state (built once).
 func c31NewState() *state.StateDB {
+	c31BaseOnce.Do(func() {
+		sdb := c31BuildState()
+		c31BaseDB = sdb.Database()
+		c31BaseRoot = sdb.IntermediateRoot(params.Rules{IsEIP158: true})
+	})
+	sdb, err := state.New(c31BaseRoot, c31BaseDB)
+	if err != nil {
+		panic(err)
+	}
+	return sdb
+}
+
+func c31BuildState() *state.StateDB {
 	sdb, _ := state.New(types.EmptyRootHash, state.NewDatabaseForTesting())
 	for _, a := range c31Froms {
 		sdb.CreateAccount(a)
